@@ -54,6 +54,8 @@ SPECIAL = [
     'c1ccc2c1CCCc1cccc1-2', 'c1ccc-2c1OCc1cccc12', 'c1cccc1-c1cccc1', 'c1ccc2c1CCc1cccc1=2', 'c1ccc=2c1CCc1cccc12',
     'c1ccc2c1CCc1cccc12', 'c1ccc2c1CCc1cccc1:2', 'c1cc2cccc2c1', 'c1cc-2cccc-2c1', 'c1cc2cccc-2c1', 'c1cc-2cccc2c1',
     'c1ccccc1-1', 'c1cc-1', 'c1ccc-1', 'c-1ccc1', 'c1ccccc-1', 'c-1ccccc1', 'c1ccccc=1', 'c=1ccccc1', 'c:1ccccc:1',
+    # chirality marks on atoms with two or three hydrogens (meaningless chemically, valid syntactically)
+    '[C@H2](F)Cl', '[13C@@H2](F)Cl', '[N@H2+](C)F', 'C[C@H2]F', '[C@H3]F', '[Si@@H2](F)C', 'F[C@@H2]C1CC1', '[C@H2]1CC1',
     # two-digit hydrogen counts and other over-long numeric fields (the SELFIES atom grammar has one H digit)
     '[CH10-2]', '[SiH12]', '[UH10]C', '[CH11]', '[PbH10+2]', '[CH10]', '[ZrH12]C', '[C@H10]', '[13CH10]', '[CH1][CH01]',
     '[CH00]', '[C+01]', '[0C]', '[00C]', '[C-00]',
@@ -80,6 +82,12 @@ def ring_digit_centres():
             ('OC1CC(C[C{c}H]{d})OC2.F', '12')]
     # the same centres with a closing digit written after a branch on the partner (recorded finding C04/C10 class)
     out += ['F[C@@]12CCCC(O2)1', 'F[C@]12CCCC(O2)1', 'C[C@@]12CCCC(C2)1', 'C(C[C@@]12CCC)C(C2)1C', 'F[C@@]12CCCC1(O2)']
+    # a centre that only CLOSES rings and writes its own closing digit(s) after one or two branches
+    for c in ('@', '@@'):
+        out += [t.replace('{c}', c) for t in (
+            'C1CC[C{c}H](F)1', 'C1CCC[C{c}](F)(Cl)1', 'C1CC[C{c}](F)1Cl', 'N1CC[C{c}H](O)1', 'C1CC2CC[C{c}](F)12',
+            'C1CC2CC[C{c}](F)21', 'C1CC[C{c}](F)(Cl)1', 'O1CC[C{c}H](CC)1', 'C1CC[C{c}H](F)1.C', 'CC1CC[C{c}](N)(O)1',
+            'C1CC2CC[C{c}]1(F)2', 'C1CC2CC[C{c}]2(F)1')]
     for t, digs in fams:
         if digs is None:
             continue
@@ -128,6 +136,43 @@ def ring_after_branch(smiles):
                     return True
             elif m.atoms[j].prev == i:
                 seen_child = True
+    return False
+
+
+def centre_partner_after_branch(smiles):
+    """True if a stereo centre c has two ring-closure partners p, q and p writes its closing digit for c AFTER a
+    branch that contains q (the decidable input class of the recorded C04 finding)"""
+    from spec import smiles_reader as R
+    try:
+        m = R.read_smiles(smiles)
+    except R.SmilesSyntaxError:
+        return False
+    partners = {}
+    for lab, i, j in m.ring_closures:
+        partners.setdefault(i, set()).add(j)
+        partners.setdefault(j, set()).add(i)
+
+    def inside(q, root, p):
+        k = q
+        while k is not None and k != p:
+            if k == root:
+                return True
+            k = m.atoms[k].prev
+        return False
+    for c, a in enumerate(m.atoms):
+        if a.chirality is None or len(partners.get(c, ())) < 2:
+            continue
+        for p_ in partners[c]:
+            kids = []
+            for e in m.neighbors[p_]:
+                if e[0] != 'atom':
+                    continue
+                j = e[1]
+                if j == c and j in partners.get(p_, ()):
+                    if any(inside(q, kid, p_) for kid in kids for q in partners[c] if q != p_):
+                        return True
+                elif m.atoms[j].prev == p_:
+                    kids.append(j)
     return False
 
 
@@ -206,7 +251,8 @@ def _work(job):
                         continue
                     bad.append({'clause': cl, 'detail': d, 'input': {'smiles': t, 'table': table if isinstance(table, str)
                                                                       else 'relaxed'},
-                                'features': {'ring_after_branch': rab}})
+                                'features': {'ring_after_branch': rab,
+                                             'centre_partner_after_branch': centre_partner_after_branch(t)}})
     return n, len(nt), bad
 
 
